@@ -12,6 +12,7 @@ mod derive;
 mod format;
 mod confid;
 mod enc;
+mod fixcli;
 mod fscomp;
 mod fsstack;
 mod fuzz;
@@ -92,7 +93,10 @@ fn main() {
         "keys-tester" => keys::tester(),
         "c19-tester" => derive::tester(),
         "c06" => format::c06_cases(&mut rng, &tier, &mut out),
-        "c16" => cli::c16_cases(&mut rng, &tier, &mut out),
+        "c16" => {
+            cli::c16_cases(&mut rng, &tier, &mut out);
+            fixcli::c16_bytes_cases(&mut rng, &tier, &mut out);
+        }
         "c16-symlink" => cli::c16_symlink_cases(&mut rng, &tier, &mut out),
         "c16-pool" => poolcli::c16_pool_cases(&mut rng, &tier, &mut out),
         "c02" => repair::c02_cases(&mut rng, &tier, &mut out),
